@@ -125,6 +125,21 @@ fn c08_control_flow_programs() {
         p.extend([0x60, 0x01, 0x60, 0x09, 0x55, 0x00]);
         progs.push((Box::leak(format!("dead code after {name}").into_boxed_str()), p, Some(9), None));
     }
+    // a jump target computed with a shift by 2^32 / 2^64 / 2^255 (the shifted part is 0 on the EVM): PUSH t ; PUSH 2 ; PUSH s ; SHL ; ADD ; JUMP
+    // lands on t (STOP behind a JUMPDEST), never on the dead block at t + 2 that stores slot 9
+    for s in [U256::ONE << 32u32, (U256::ONE << 32u32) + U256::from(1u8), U256::ONE << 64u32, U256::ONE << 255u32] {
+        for shr in [false, true] {
+            let mut p: Vec<u8> = vec![];
+            let sb = s.to_be_bytes(); let z = sb.iter().take_while(|v| **v == 0).count();
+            let tail_len = 2 + 2 + (1 + 32 - z) + 1 + 1 + 1;
+            let t = tail_len as u8;
+            p.extend([0x60, t, 0x60, 0x02]); p.push(0x5f + (32 - z) as u8); p.extend(&sb[z..]); p.extend([if shr { 0x1c } else { 0x1b }, 0x01, 0x56]);
+            assert_eq!(p.len(), tail_len);
+            // t: JUMPDEST STOP ; t+2: JUMPDEST PUSH1 1 PUSH1 9 SSTORE STOP
+            p.extend([0x5b, 0x00, 0x5b, 0x60, 0x01, 0x60, 0x09, 0x55, 0x00]);
+            progs.push((Box::leak(format!("jump to t + (2 {} {s:#x}) lands on t", if shr { ">>" } else { "<<" }).into_boxed_str()), p, Some(9), None));
+        }
+    }
     progs.push(("dead code after a stack underflow", vec![0x01, 0x60, 0x01, 0x60, 0x09, 0x55, 0x00], Some(9), None));
     // the overflowing DUP's copy would be the key of the SSTORE right behind it (no further push needed)
     for dup in [0x80u8, 0x81, 0x8f] {
